@@ -126,6 +126,36 @@ package meta
 //@   loop 1 iteration [payload_taken_off_only_for_members_marked_now] diff.Payload != old(diff.Payload) ==> memberHeaderStored() && memberStatus() == statusAvailable
 //@   loop 1 iteration [payload_of_every_stored_physical_member_marked_now_is_taken_off] memberHeaderStored() && memberStatus() == statusAvailable && memberPhysical() ==> diff.Payload == old(diff.Payload) - int64(memberPayloadSize())
 
+// The recount must use the same meaning of the garbage counter as the live updates (above):
+// a garbage key counts only if it belongs to an object stored here. The third range body of
+// syncContainerCounters is the loop over the garbage keys.
+//@ ghost pred garbageKeyOfStoredObject() bool
+//@ callrule c02_recount_looks_the_marked_object_up in syncContainerCounters$3
+//@   property C02
+//@   callee metabase.getObjAttribute, metabase.fetchTypeForID, metabase.fetchTypeForIDWBuf
+//@   pureeffect
+//@   optional
+//@   defines garbageKeyOfStoredObject()
+//@ func syncContainerCounters$3
+//@   property C02
+//@   ensures [recount_counts_marks_of_stored_objects_only] deref(gcCounter) != old(deref(gcCounter)) ==> garbageKeyOfStoredObject()
+
+// put counts an object as new (PHY, ROOT, type, payload) only when it is not in the index
+// yet. db.exists answering "not found" does not establish that: it answers so for an
+// object that is indexed and carries a garbage mark, too. Only a look-up of the index entry
+// itself does.
+//@ ghost pred headerAbsentFromIndex() bool
+//@ callrule c02_put_index_lookup in (*DB).put
+//@   property C02
+//@   callee metabase.fetchTypeForID, metabase.fetchTypeForIDWBuf
+//@   pureeffect
+//@   optional
+//@   defines errIs(err, errObjTypeNotFound) ==> headerAbsentFromIndex()
+//@ callrule c02_put_counts_new_objects_only in (*DB).put
+//@   property C02
+//@   callee metabase.applyDiff
+//@   requires [object_is_not_indexed_yet] headerAbsentFromIndex()
+
 //@ ghost pred metaDiffGC() int
 //@ ghost pred metaDiffPhy() int
 //@ ghost pred metaDiffPayload() int64
